@@ -326,7 +326,12 @@ class Runner:
             # every stalled or crawling sync session seen in development was
             # a paced 2-host one; unpaced sessions never stalled
             env["VERIF_E4_NOPACE"] = "1"
-        cmd = ["mpirun", "--allow-run-as-root", "--oversubscribe", "-np",
+        # --bind-to none: Open MPI's default binds every rank of an np<=2 job
+        # to ONE core (np>2: to a socket).  A rank is a compute thread plus a
+        # busy-polling network thread, and concurrent sessions all get cores
+        # 0 and 1: 2-host sessions crawled (20-30 s per case instead of <1 s)
+        cmd = ["mpirun", "--allow-run-as-root", "--oversubscribe",
+               "--bind-to", "none", "-np",
                str(s.hosts), self.exe, fin, fout, str(s.threads)]
         s.logf = open(flog, "wb")
         # no stdin for mpirun (it forwards stdin to rank 0: a terminal there
@@ -920,8 +925,7 @@ def c18_plan(tier):
                    ("cvc", "csr"), ("ginger-o", "csr"), ("fennel-o", "csr"),
                    ("sugar-o", "csr"), ("oec", "csc"), ("hivc", "csc"),
                    ("cvc-iec", "csc")]
-            for k in range(3):
-                pol, out = cfg[(3 * i + k) % len(cfg)]
+            for pol, out in cfg:
                 add((2, 1, mk(g, pol, out, capbits=6, forced="diag")))
             for pol in ("oec", "iec", "hovc", "cvc", "ginger-o", "fennel-o",
                         "sugar-o"):
@@ -1135,7 +1139,8 @@ def run_check(a, prop, tier, exe, workdir, deadline_at):
         per = lambda h, t: 8  # noqa: E731
         stall = 120
     global MAXRANKS
-    if prop == "C18" and "VERIF_E4_RANKS" not in os.environ:
+    if prop == "C18" and "VERIF_E4_RANKS" not in os.environ and \
+            os.environ.get("VERIF_E4_PACE"):
         # paced ranks wake up ~50k times a second per thread: beyond ~8 ranks
         # the timer traffic itself becomes the bottleneck (measured)
         MAXRANKS = 8
@@ -1152,7 +1157,11 @@ def run_check(a, prop, tier, exe, workdir, deadline_at):
         (prop, tier, len(plan), reps, len(sessions), MAXRANKS, a.deadline))
     runner = Runner(exe, workdir, files, stall)
     if prop == "C18":
-        runner.nopace_hosts = (2,)
+        # the idle-poll pacing shim (e4_pace.h) is off everywhere since the
+        # real cause of the crawling sessions was found (mpirun's default core
+        # binding, see Runner.start); VERIF_E4_PACE=1 brings it back
+        runner.nopace_hosts = () if os.environ.get("VERIF_E4_PACE") else \
+            (1, 2, 3, 4)
     RUNNERS.append(runner)
 
     cells = {}      # cell name -> stats
